@@ -58,7 +58,7 @@ BASE_CONSTANTS = {
     "G_NonVoterNoElection": "TRUE", "G_StepDownWhenDemoted": "TRUE",
     "G_XferCaughtUp": "TRUE", "G_XferBlocksEntries": "TRUE", "G_XferSuccessOnHigherTerm": "TRUE", "G_CommitMonotone": "TRUE", "G_ReadAfterCommit": "TRUE",
     "MaxRoundOrd": 3, "SegSize": 1024, "UpdBytes": 300, "MaxSnaps": 0, "FixD4": "TRUE", "FixD5": "TRUE", "FixD11": "TRUE", "FixD3": "TRUE", "FixD13": "TRUE", "RoundFastSet": "{TRUE}", "MaxCfgReqs": 0, "EdAddPromote": "{}", "EdAddNonvoter": "{}", "EdPromote": "{}", "EdDemote": "{}", "EdRemove": "{}", "EdForceRemove": "{}",
-    "FixD1": "TRUE", "FixD2": "TRUE", "FixD19": "TRUE", "FixD22": "TRUE", "FixD20": "TRUE", "FixD14": "TRUE", "MaxXfers": 0, "MaxXferTries": 2, "XferTargets": "{None}", "ClientOps": '{"update"}', "NetFaults": "FALSE", "TrackClients": "FALSE",
+    "FixD1": "TRUE", "FixD2": "TRUE", "FixD19": "TRUE", "FixD23": "TRUE", "FixD22": "TRUE", "FixD20": "TRUE", "FixD14": "TRUE", "MaxXfers": 0, "MaxXferTries": 2, "XferTargets": "{None}", "ClientOps": '{"update"}', "NetFaults": "FALSE", "TrackClients": "FALSE",
 }
 
 
